@@ -329,6 +329,8 @@ pub fn jobs(pn: u32, tier: Tier) -> Vec<Job> {
             let req = ["q_t_eq_exp", "q_lazy_removal", "q_lazy_removal_2child", "reinsert_expired_key", "probe_below", "probe_equal", "probe_gap", "probe_above", "ins_exp_eq_time"];
             v.push(job("key-tree-tiny", random(key_cases(id, key_mix("tree", &[3, 4, 6], 4, 2, [30, 12, 12, 12, 0, 20, 2, 3], 0..=60, None)), n(24_000, 600_000)), rule.clone(), &req));
             v.push(job("key-tree-medium", random(key_cases(id, key_mix("tree", &[16, 64], 30, 6, [34, 12, 12, 12, 0, 18, 1, 2], 0..=200, None)), n(4_000, 100_000)), rule.clone(), &req));
+            v.push(job("key-tree-big", random(key_cases(id, key_mix("tree", &[300, 3000], 1500, 30, [50, 8, 8, 8, 0, 16, 0, 1], 300..=1500, None)), n(150, 4_000)), rule.clone(), &["height_ge_6", "arena_growth_x2"]));
+            v.push(job("key-tree-big-clear-big", random(key_clear_cases_sized(id, "tree", vec![300, 3000], 1500, 30, 100..=500), n(100, 3_000)), rule.clone(), &[]));
             if !q {
                 let mut m = key_mix("tree", &[1_000_000], 3000, 40, [60, 8, 8, 8, 0, 14, 0, 1], 500..=6000, None);
                 m.snap = false;
@@ -342,6 +344,7 @@ pub fn jobs(pn: u32, tier: Tier) -> Vec<Job> {
             let w = [40, 30, 2, 1, 1, 2, 2, 8, 0, 0];
             for (fam, vals) in [("map", vec!["u64"]), ("set", vec!["u64", "bare"])] {
                 v.push(job(&format!("{}-tree-churn", fam), random(ord_cases(id, ord_mix(fam, "tree", &vals, &[8, 16, 64], w, 0..=300, 3)), n(6_000, 150_000)), rule.clone(), &req));
+                v.push(job(&format!("{}-tree-big", fam), random(ord_cases(id, ord_mix(fam, "tree", &vals, &[300, 3000], w, 300..=1500, 3)), n(150, 4_000)), rule.clone(), &["height_ge_6", "arena_growth_x2"]));
                 if !q {
                     let mut m = ord_mix(fam, "tree", &vals, &[4096, 100_000], w, 0..=4000, 3);
                     m.snap = true;
@@ -351,6 +354,11 @@ pub fn jobs(pn: u32, tier: Tier) -> Vec<Job> {
             }
             let krule = Rule::all("history with a lazy removal of a two-children node and of a black leaf", &["rm_two_children", "rm_black_leaf"]);
             v.push(job("key-tree-churn", random(key_cases(id, key_mix("tree", &[8, 16, 64], 12, 4, [40, 8, 8, 8, 8, 22, 1, 1], 0..=300, Some(0..=4))), n(6_000, 150_000)), krule.clone(), &["rm_two_children", "rm_black_leaf", "rm_red_leaf", "rm_one_child", "rotation_or_relink"]));
+            v.push(job("key-tree-big", random(key_cases(id, key_mix("tree", &[300, 3000], 1500, 30, [50, 6, 6, 6, 6, 16, 0, 1], 300..=1500, Some(0..=600))), n(150, 4_000)), krule.clone(), &["height_ge_6", "arena_growth_x2"]));
+            v.push(job("key-tree-big-clear-big", random(key_clear_cases_sized(id, "tree", vec![300, 3000], 1500, 30, 100..=500), n(100, 3_000)), krule.clone(), &[]));
+            for (fam, vals) in [("map", vec!["u64"]), ("set", vec!["u64", "bare"])] {
+                v.push(job(&format!("{}-tree-big-clear-big", fam), random(ord_clear_cases_sized(id, fam, "tree", vals, vec![300, 3000], 100..=500), n(100, 3_000)), rule.clone(), &[]));
+            }
             v.push(job("key-tree-enum", JobKind::Enumerate { spec: if q { key_enum(id, "tree", 3, 2, 3, true, true, 400_000) } else { key_enum(id, "tree", 4, 2, 3, true, true, 1_500_000) } }, krule, &[]));
         }
         3 => {
@@ -358,6 +366,9 @@ pub fn jobs(pn: u32, tier: Tier) -> Vec<Job> {
             let req = ["iterator_dropped_midway", "query_after_dropped_iterator", "query_at_bucket_boundary", "query_single_point", "query_t_eq_exp", "after_clear", "query_with_expired_copies", "ins_already_expired"];
             v.push(job("seg-histories", random(seg_cases(id, SegMix { w: [30, 30, 12, 2, 4, 10, 10], len: 0..=60, thorough: !q, only_small: false }), n(16_000, 400_000)), rule.clone(), &req));
             v.push(job("seg-histories-small-domains", random(seg_cases(id, SegMix { w: [30, 30, 12, 2, 4, 10, 10], len: 0..=60, thorough: !q, only_small: true }), n(8_000, 200_000)), rule.clone(), &req));
+            v.push(job("seg-long-histories", random(seg_cases(id, SegMix { w: [50, 24, 6, 1, 2, 12, 8], len: 100..=600, thorough: !q, only_small: false }), n(400, 10_000)), rule.clone(), &["chunk_ge_17_entries"]));
+            v.push(job("seg-long-histories-small-domains", random(seg_cases(id, SegMix { w: [50, 24, 6, 1, 2, 12, 8], len: 100..=600, thorough: !q, only_small: true }), n(300, 8_000)), rule.clone(), &["chunk_ge_17_entries"]));
+            v.push(job("seg-insert-bursts", random(seg_cases(id, SegMix { w: [80, 3, 5, 0, 1, 12, 1], len: 200..=700, thorough: !q, only_small: false }), n(300, 8_000)), rule.clone(), &["query_ge_65_expired_copies"]));
             v.push(job("seg-32-all-pairs-x-3-times", JobKind::Fixed { cases: seg_pair_cases(id, true), stop_on_first: false }, Rule::any("every (insert range, query range) pair over the 32-point domain at t in {exp-1, exp, exp+1}", &["query_t_eq_exp"]), &[]));
         }
         4 | 5 => {
@@ -368,6 +379,8 @@ pub fn jobs(pn: u32, tier: Tier) -> Vec<Job> {
             let w = [36, 26, 26, 3, 1, 0, 3, 0, 0, 0];
             v.push(job(&format!("{}-tree-tiny", fam), random(ord_cases(id, ord_mix(fam, "tree", &vals, &[4, 6, 8], w, 0..=60, 1)), n(12_000, 300_000)), rule.clone(), &req));
             v.push(job(&format!("{}-tree-medium", fam), random(ord_cases(id, ord_mix(fam, "tree", &vals, &[16, 64], w, 0..=300, 3)), n(5_000, 120_000)), rule.clone(), &req));
+            v.push(job(&format!("{}-tree-big", fam), random(ord_cases(id, ord_mix(fam, "tree", &vals, &[300, 3000], w, 300..=1500, 3)), n(150, 4_000)), rule.clone(), &["height_ge_6"]));
+            v.push(job(&format!("{}-tree-big-clear-big", fam), random(ord_clear_cases_sized(id, fam, "tree", vals.clone(), vec![300, 3000], 100..=500), n(100, 3_000)), rule.clone(), &[]));
             if !q {
                 v.push(job(&format!("{}-tree-large", fam), random(ord_cases(id, ord_mix(fam, "tree", &vals, &[4096, 1_000_000], w, 0..=4000, 3)), 600), rule.clone(), &[]));
             }
@@ -380,6 +393,8 @@ pub fn jobs(pn: u32, tier: Tier) -> Vec<Job> {
             let req = ["get_left_of_root", "get_right_of_root", "get_depth_ge_3", "get_stored_expired", "get_never_stored_or_gone", "q_lazy_removal"];
             v.push(job("key-tree-tiny", random(key_cases(id, key_mix("tree", &[3, 4, 6], 4, 2, [30, 5, 5, 5, 30, 18, 2, 1], 0..=60, None)), n(24_000, 600_000)), rule.clone(), &req));
             v.push(job("key-tree-medium", random(key_cases(id, key_mix("tree", &[16, 64], 30, 6, [34, 4, 4, 4, 34, 16, 1, 1], 0..=200, None)), n(4_000, 100_000)), rule.clone(), &req));
+            v.push(job("key-tree-big", random(key_cases(id, key_mix("tree", &[300, 3000], 1500, 30, [50, 3, 3, 3, 24, 16, 0, 1], 300..=1500, None)), n(150, 4_000)), rule.clone(), &["height_ge_6", "get_depth_ge_3"]));
+            v.push(job("key-tree-big-clear-big", random(key_clear_cases_sized(id, "tree", vec![300, 3000], 1500, 30, 100..=500), n(100, 3_000)), rule.clone(), &[]));
             v.push(job("key-tree-enum", JobKind::Enumerate { spec: if q { key_enum(id, "tree", 3, 2, 3, true, false, 400_000) } else { key_enum(id, "tree", 4, 2, 3, true, false, 1_500_000) } }, rule, &[]));
         }
         7 => {
@@ -387,6 +402,8 @@ pub fn jobs(pn: u32, tier: Tier) -> Vec<Job> {
             let req = ["export_t_eq_exp", "export_expired_successor", "export_all_expired", "export_none_expired", "export_after_free", "export_ge_3_stored"];
             v.push(job("key-export-tiny", random(key_cases(id, key_mix("tree", &[3, 4, 6], 4, 2, [34, 7, 7, 7, 7, 20, 2, 1], 0..=50, Some(0..=5))), n(24_000, 600_000)), rule.clone(), &req));
             v.push(job("key-export-medium", random(key_cases(id, key_mix("tree", &[16, 64], 20, 5, [40, 6, 6, 6, 6, 20, 1, 1], 0..=200, Some(0..=24))), n(5_000, 120_000)), rule.clone(), &req));
+            v.push(job("key-export-big", random(key_cases(id, key_mix("tree", &[300, 3000], 1500, 30, [50, 5, 5, 5, 5, 16, 0, 1], 300..=1500, Some(0..=1600))), n(150, 4_000)), rule.clone(), &["height_ge_6", "export_after_free"]));
+            v.push(job("key-export-big-clear-big", random(key_clear_cases_sized(id, "tree", vec![300, 3000], 1500, 30, 100..=500), n(100, 3_000)), rule.clone(), &[]));
             v.push(job("key-export-enum", JobKind::Enumerate { spec: if q { key_enum(id, "tree", 3, 2, 3, true, true, 400_000) } else { key_enum(id, "tree", 4, 2, 3, true, true, 1_500_000) } }, rule, &[]));
         }
         8 => {
@@ -395,6 +412,8 @@ pub fn jobs(pn: u32, tier: Tier) -> Vec<Job> {
             let w = [34, 8, 4, 1, 1, 24, 12, 12, 0, 0];
             for (fam, vals) in [("map", vec!["u64", "string"]), ("set", vec!["u64", "string"])] {
                 v.push(job(&format!("{}-tree-handles", fam), random(ord_cases(id, ord_mix(fam, "tree", &vals, &[4, 6, 8, 16, 64], w, 0..=120, 1)), n(8_000, 200_000)), rule.clone(), &req));
+                v.push(job(&format!("{}-tree-handles-big", fam), random(ord_cases(id, ord_mix(fam, "tree", &vals, &[300, 3000], [40, 14, 2, 0, 0, 20, 8, 12, 0, 0], 300..=1500, 3)), n(120, 3_000)), rule.clone(), &["height_ge_6"]));
+                v.push(job(&format!("{}-tree-big-clear-big", fam), random(ord_clear_cases_sized(id, fam, "tree", vals.clone(), vec![300, 3000], 100..=500), n(80, 2_000)), rule.clone(), &[]));
                 v.push(job(&format!("{}-tree-enum", fam), JobKind::Enumerate { spec: ord_enum(id, fam, "tree", "u64", if q { 6 } else { 8 }, true, &[O_HSWEEP], 2_000_000) }, rule.clone(), &[]));
             }
         }
@@ -403,6 +422,8 @@ pub fn jobs(pn: u32, tier: Tier) -> Vec<Job> {
             let req = ["step_at_end_root", "step_at_end_nonroot", "step_single_entry", "step_inner", "full_walk"];
             let w = [34, 14, 2, 1, 1, 0, 0, 6, 30, 8];
             v.push(job("set-tree-steps", random(ord_cases(id, ord_mix("set", "tree", &["u64", "string", "bare"], &[4, 6, 8, 16, 64], w, 0..=120, 1)), n(10_000, 250_000)), rule.clone(), &req));
+            v.push(job("set-tree-steps-big", random(ord_cases(id, ord_mix("set", "tree", &["u64", "bare"], &[300, 3000], [50, 18, 0, 0, 0, 0, 0, 6, 20, 1], 300..=1500, 3)), n(120, 3_000)), rule.clone(), &["height_ge_6"]));
+            v.push(job("set-tree-big-clear-big", random(ord_clear_cases_sized(id, "set", "tree", vec!["u64", "bare"], vec![300, 3000], 100..=500), n(80, 2_000)), rule.clone(), &[]));
             if !q {
                 v.push(job("set-tree-steps-large", random(ord_cases(id, ord_mix("set", "tree", &["u64", "bare"], &[4096], [60, 20, 0, 0, 0, 0, 0, 4, 10, 1], 0..=3000, 3)), 400), rule.clone(), &[]));
             }
@@ -419,6 +440,15 @@ pub fn jobs(pn: u32, tier: Tier) -> Vec<Job> {
                 v.push(job(&format!("set-{}", coll), random(ord_cases(id, ord_mix("set", coll, if coll == "tree" { &["u64", "string", "bare"] } else { &["u64", "string"] }, &[4, 8, 16, 64], ow, 0..=150, 3)), n(6_000, 150_000)), rule.clone(), &[]));
             }
             v.push(job("seg", random(seg_cases(id, SegMix { w: [30, 30, 12, 2, 4, 10, 10], len: 0..=60, thorough: !q, only_small: false }), n(8_000, 200_000)), rule.clone(), &[]));
+            v.push(job("seg-long", random(seg_cases(id, SegMix { w: [50, 20, 8, 1, 3, 12, 6], len: 100..=600, thorough: !q, only_small: false }), n(300, 8_000)), rule.clone(), &[]));
+            for coll in ["tree", "list"] {
+                v.push(job(&format!("key-{}-big", coll), random(key_cases(id, key_mix(coll, &[300, 3000], 1500, 30, [50, 6, 6, 6, 8, 16, 1, 1], 300..=1500, Some(0..=600))), n(100, 3_000)), rule.clone(), &[]));
+                v.push(job(&format!("map-{}-big", coll), random(ord_cases(id, ord_mix("map", coll, &["u64", "string"], &[300, 3000], mw, 300..=1500, 3)), n(100, 3_000)), rule.clone(), &[]));
+                v.push(job(&format!("set-{}-big", coll), random(ord_cases(id, ord_mix("set", coll, &["u64", "string"], &[300, 3000], ow, 300..=1500, 3)), n(100, 3_000)), rule.clone(), &[]));
+                v.push(job(&format!("key-{}-big-clear-big", coll), random(key_clear_cases_sized(id, coll, vec![300, 3000], 1500, 30, 100..=500), n(60, 2_000)), rule.clone(), &[]));
+                v.push(job(&format!("map-{}-big-clear-big", coll), random(ord_clear_cases_sized(id, "map", coll, vec!["u64", "string"], vec![300, 3000], 100..=500), n(60, 2_000)), rule.clone(), &[]));
+                v.push(job(&format!("set-{}-big-clear-big", coll), random(ord_clear_cases_sized(id, "set", coll, vec!["u64", "string"], vec![300, 3000], 100..=500), n(60, 2_000)), rule.clone(), &[]));
+            }
             v.push(job("seg-domain-table", JobKind::Fixed { cases: seg_domain_table(id, !q), stop_on_first: false }, Rule::any("domain with non-power-of-two length or negative lo", &["domain_non_pow2", "domain_negative_lo"]), &[]));
             v.push(job("map-tree-enum", JobKind::Enumerate { spec: ord_enum(id, "map", "tree", "u64", if q { 5 } else { 7 }, true, &[O_HSWEEP], 2_000_000) }, rule.clone(), &[]));
             v.push(job("set-tree-enum", JobKind::Enumerate { spec: ord_enum(id, "set", "tree", "u64", if q { 5 } else { 7 }, true, &[O_STEPALL, O_WALK], 2_000_000) }, rule.clone(), &[]));
@@ -438,6 +468,14 @@ pub fn jobs(pn: u32, tier: Tier) -> Vec<Job> {
                 v.push(job(&format!("{}-tree-enum", fam), JobKind::Enumerate { spec: ord_enum(id, fam, "tree", "u64", if q { 5 } else { 7 }, true, &[], 2_000_000) }, Rule::any("transition that removes an entry", &["rm_two_children", "rm_black_leaf", "rm_red_leaf", "rm_one_child", "rm_last"]), &[]));
             }
             v.push(job("key-tree-long-churn", random(key_cases(id, key_mix("tree", &[20, 40, 100], 30, 6, [50, 6, 6, 6, 6, 24, 1, 0], lens.clone(), Some(0..=8))), n(480, 4_000)), rule.clone(), &["arena_growth_x2", "clear_after_growth"]));
+            for (fam, vals) in [("map", vec!["u64"]), ("set", vec!["u64"])] {
+                v.push(job(&format!("{}-tree-big-churn", fam), random(ord_cases(id, ord_mix(fam, "tree", &vals, &[1000, 5000], w, 600..=2500, 3)), n(60, 1_500)), Rule::any("history with >=2 arena growth events", &["arena_growth_x2"]), &["arena_growth_x2"]));
+            }
+            v.push(job("key-tree-big-churn", random(key_cases(id, key_mix("tree", &[1000, 5000], 1500, 30, [50, 6, 6, 6, 6, 20, 1, 0], 600..=2500, Some(0..=800))), n(60, 1_500)), Rule::any("history with >=2 arena growth events", &["arena_growth_x2"]), &["arena_growth_x2"]));
+            v.push(job("key-tree-big-clear-big", random(key_clear_cases_sized(id, "tree", vec![300, 3000], 1500, 30, 100..=500), n(100, 3_000)), Rule::any("clear after arena growth", &["clear_after_growth"]), &[]));
+            for fam in ["map", "set"] {
+                v.push(job(&format!("{}-tree-big-clear-big", fam), random(ord_clear_cases_sized(id, fam, "tree", vec!["u64"], vec![300, 3000], 100..=500), n(100, 3_000)), Rule::any("clear after arena growth", &["clear_after_growth"]), &[]));
+            }
             v.push(job("key-tree-enum", JobKind::Enumerate { spec: key_enum(id, "tree", 3, 2, if q { 2 } else { 3 }, true, true, 1_500_000) }, Rule::any("transition with a lazy removal", &["q_lazy_removal"]), &[]));
         }
         12 => {
@@ -450,11 +488,18 @@ pub fn jobs(pn: u32, tier: Tier) -> Vec<Job> {
                 v.push(job(&format!("set-{}", coll), random(ord_clear_cases(id, "set", coll, vec!["u64", "string"], vec![6, 16, 40]), n(4_000, 100_000)), rule.clone(), if coll == "tree" { &req } else { &req[..1] }));
             }
             v.push(job("seg", random(seg_clear_cases(id), n(5_000, 120_000)), Rule::all("prefix left >=3 values (>=1 expired) and the suffix made >=5 twin observations", &["clear_ge_3_stored", "clear_with_expired_stored", "twin_obs_ge_5"]), &["clock_restarted_earlier", "clear_empty"]));
+            // big prefixes: arenas grown several times, long bucket lists
+            for coll in ["tree", "list"] {
+                v.push(job(&format!("key-{}-big-prefix", coll), random(key_clear_cases_sized(id, coll, vec![300, 3000], 1500, 30, 150..=600), n(120, 3_000)), Rule::all("prefix left >=3 entries and the suffix made >=5 twin observations", &["clear_ge_3_stored", "twin_obs_ge_5"]), &[]));
+                v.push(job(&format!("map-{}-big-prefix", coll), random(ord_clear_cases_sized(id, "map", coll, vec!["u64", "string"], vec![300, 3000], 150..=600), n(120, 3_000)), rule.clone(), &[]));
+                v.push(job(&format!("set-{}-big-prefix", coll), random(ord_clear_cases_sized(id, "set", coll, vec!["u64", "string"], vec![300, 3000], 150..=600), n(120, 3_000)), rule.clone(), &[]));
+            }
         }
         13 => {
             let krule = Rule::all("KeyExpList history in which both an operation with an expired entry stored (purge) and one without (shortcut skip) occur", &["list_op_expired_stored", "list_op_no_expired_stored"]);
             v.push(job("key-list-tiny", random(key_cases(id, key_mix("list", &[3, 4, 6], 4, 2, [30, 9, 9, 9, 12, 20, 2, 3], 0..=60, Some(0..=5))), n(16_000, 400_000)), krule.clone(), &["q_t_eq_exp", "reinsert_expired_key", "ins_exp_eq_time"]));
             v.push(job("key-list-medium", random(key_cases(id, key_mix("list", &[16, 64], 30, 6, [34, 8, 8, 8, 10, 18, 1, 2], 0..=200, Some(0..=24))), n(3_000, 80_000)), krule.clone(), &[]));
+            v.push(job("key-list-big", random(key_cases(id, key_mix("list", &[300, 3000], 1500, 30, [50, 6, 6, 6, 8, 16, 0, 1], 300..=1500, Some(0..=600))), n(120, 3_000)), krule.clone(), &[]));
             v.push(job("key-list-enum", JobKind::Enumerate { spec: if q { key_enum(id, "list", 3, 2, 3, true, true, 400_000) } else { key_enum(id, "list", 4, 2, 3, true, true, 1_500_000) } }, krule, &[]));
             let mrule = Rule::any("a handle used for write or delete, or a lookup after a deletion", &["handle_delete", "hprobe_gap", "lookup_after_removal"]);
             let mw = [34, 16, 14, 2, 1, 14, 8, 8, 0, 0];
@@ -462,6 +507,8 @@ pub fn jobs(pn: u32, tier: Tier) -> Vec<Job> {
             let srule = Rule::all("SetList neighbour step past an end", &["step_at_end"]);
             let sw = [32, 12, 10, 2, 1, 10, 6, 6, 18, 5];
             v.push(job("set-list", random(ord_cases(id, ord_mix("set", "list", &["u64", "string"], &[4, 8, 16, 64], sw, 0..=120, 1)), n(8_000, 200_000)), srule.clone(), &["step_single_entry", "step_inner", "full_walk"]));
+            v.push(job("map-list-big", random(ord_cases(id, ord_mix("map", "list", &["u64", "string"], &[300, 3000], mw, 300..=1500, 3)), n(100, 3_000)), Rule::default(), &[]));
+            v.push(job("set-list-big", random(ord_cases(id, ord_mix("set", "list", &["u64", "string"], &[300, 3000], sw, 300..=1500, 3)), n(100, 3_000)), Rule::default(), &[]));
             v.push(job("map-list-enum", JobKind::Enumerate { spec: ord_enum(id, "map", "list", "u64", if q { 5 } else { 7 }, true, &[O_SWEEP, O_HSWEEP], 100_000) }, mrule, &[]));
             v.push(job("set-list-enum", JobKind::Enumerate { spec: ord_enum(id, "set", "list", "u64", if q { 5 } else { 7 }, true, &[O_SWEEP, O_HSWEEP, O_STEPALL, O_WALK], 100_000) }, srule, &[]));
         }
@@ -481,12 +528,15 @@ pub fn jobs(pn: u32, tier: Tier) -> Vec<Job> {
             let rule = Rule::all("a fully consumed query issued while >=1 expired copy was physically stored", &["c16_nontrivial"]);
             v.push(job("seg-histories", random(seg_cases(id, SegMix { w: [34, 16, 16, 1, 14, 10, 6], len: 0..=60, thorough: !q, only_small: false }), n(16_000, 400_000)), rule.clone(), &["whole_domain_query", "iterator_dropped_midway"]));
             v.push(job("seg-histories-small-domains", random(seg_cases(id, SegMix { w: [34, 16, 16, 1, 14, 10, 6], len: 0..=60, thorough: !q, only_small: true }), n(8_000, 200_000)), rule, &["whole_domain_query"]));
+            v.push(job("seg-long-histories", random(seg_cases(id, SegMix { w: [50, 14, 8, 1, 8, 12, 4], len: 100..=600, thorough: !q, only_small: false }), n(400, 10_000)), Rule::all("a fully consumed query issued while >=1 expired copy was physically stored", &["c16_nontrivial"]), &["chunk_ge_17_entries"]));
+            v.push(job("seg-insert-bursts", random(seg_cases(id, SegMix { w: [80, 3, 5, 0, 2, 12, 1], len: 200..=700, thorough: !q, only_small: false }), n(300, 8_000)), Rule::all("a fully consumed query issued while >=1 expired copy was physically stored", &["c16_nontrivial"]), &["query_ge_65_expired_copies"]));
         }
         17 => {
             let rule = Rule::all("an insertion during which the parent link of a held entry changed (rotation around a designated entry)", &["rotation_around_held_entry"]);
             let w = [60, 10, 10, 1, 3, 6, 2, 4, 0, 0];
             for (fam, vals) in [("map", vec!["u64", "string"]), ("set", vec!["u64", "string", "bare"])] {
                 v.push(job(&format!("{}-tree-held-handles", fam), random(ord_cases(id, ord_mix(fam, "tree", &vals, &[16, 64, 300, 2000], w, 0..=150, 1)), n(8_000, 200_000)), rule.clone(), &["held_ge_2_across_insert"]));
+                v.push(job(&format!("{}-tree-held-handles-big", fam), random(ord_cases(id, ord_mix(fam, "tree", &vals, &[1000, 5000], [70, 2, 4, 0, 0, 4, 2, 1, 0, 0], 200..=700, 1)), n(100, 3_000)), rule.clone(), &["height_ge_6"]));
                 v.push(job(&format!("{}-tree-enum", fam), JobKind::Enumerate { spec: ord_enum(id, fam, "tree", "u64", if q { 6 } else { 8 }, false, &[], 2_000_000) }, rule.clone(), &[]));
             }
         }
@@ -518,6 +568,9 @@ pub fn jobs(pn: u32, tier: Tier) -> Vec<Job> {
             v.push(job("key-tree-medium", random(key_cases(id, key_mix("tree", &[16, 64], 30, 6, w, 0..=200, None)), n(3_000, 80_000)), rule.clone(), &req));
             v.push(job("key-list-tiny", random(key_cases(id, key_mix("list", &[3, 4, 6], 4, 2, w, 0..=60, None)), n(8_000, 200_000)), rule.clone(), &req[..2]));
             v.push(job("key-list-medium", random(key_cases(id, key_mix("list", &[16, 64], 30, 6, w, 0..=200, None)), n(2_000, 50_000)), rule.clone(), &[]));
+            v.push(job("key-tree-big", random(key_cases(id, key_mix("tree", &[300, 3000], 1500, 30, [50, 6, 6, 6, 8, 16, 0, 1], 300..=1500, None)), n(120, 3_000)), rule.clone(), &["height_ge_6"]));
+            v.push(job("key-tree-big-clear-big", random(key_clear_cases_sized(id, "tree", vec![300, 3000], 1500, 30, 100..=500), n(80, 2_000)), rule.clone(), &[]));
+            v.push(job("key-list-big", random(key_cases(id, key_mix("list", &[300, 3000], 1500, 30, [50, 6, 6, 6, 8, 16, 0, 1], 300..=1500, None)), n(80, 2_000)), rule.clone(), &[]));
             v.push(job("key-tree-enum", JobKind::Enumerate { spec: key_enum(id, "tree", 3, 2, if q { 3 } else { 3 }, true, false, 1_500_000) }, rule.clone(), &[]));
             v.push(job("key-list-enum", JobKind::Enumerate { spec: key_enum(id, "list", 3, 2, 3, true, false, 1_500_000) }, rule, &[]));
         }
